@@ -138,7 +138,8 @@ def cfg(spec: str, nn, na, no, ne, nest, maxops, invs) -> str:
 # ---------------------------------------------------------------------------------------------
 def forward(ctx: Ctx, w: World, consts: tuple, what: str, spy: TagSpy) -> list[Case]:
     res = expect_clean(tlc(ctx, f"pairs: {what}", "hash/ExprHash.tla",
-                           cfg("Spec", *consts, ["LawIdeal", "LawUnlessSched", "Emit"]), timeout=1500),
+                           cfg("Spec", *consts, ["LawIdeal", "LawUnlessSched", "Emit"]), timeout=1500,
+                           long_run=not ctx.quick, workers=ctx.pick(6, 8)),
                        f"ExprHash.tla ({what})")
     ctx.add_tlc(res)
     items = {i: e for i, e in res.recs("ITEM")}
@@ -208,7 +209,10 @@ def _state(x) -> dict:
 def _obs(x) -> list:
     # NB: Expression.__getattr__ is a lazy operator, so only the instance dict can be trusted
     d = x.__dict__
-    call = "none" if d.get("call_hash") is None else "set"
+    if "call_hash" in d:
+        call = "none" if d["call_hash"] is None else "set"
+    else:       # task / scheduler expressions must carry the attribute (else x.call_hash is a lazy getattr)
+        call = "missing" if "task_name" in d else "none"
     ups = d.get("_upstreams")
     if ups is None:
         raise MachineryError("Expression._upstreams is gone (seam of C18 moved)")
